@@ -663,11 +663,27 @@ pub mod backend {
         O: Fn(String) -> Fut,
         Fut: std::future::Future<Output = Result<S, String>>,
     {
+        run_lives_with(&case.lives, dir, open, env_of, false)
+    }
+
+    /// `compare_after_every_request`: C02's oracle on the real backend (set == storage after every request).
+    pub fn run_lives_with<S, O, Fut>(
+        lives: &[Vec<Req>],
+        dir: &str,
+        open: O,
+        env_of: impl Fn(&S) -> Option<datacake_lmdb::heed::Env>,
+        compare_after_every_request: bool,
+    ) -> Outcome
+    where
+        S: Storage + Send + Sync + 'static,
+        O: Fn(String) -> Fut,
+        Fut: std::future::Future<Output = Result<S, String>>,
+    {
         let mut acked: Option<Vec<SetView>> = None;
         let mut nontrivial = false;
         let mut labels = vec![];
         // one more life than the case has: the last one only restarts and checks
-        for life in 0..=case.lives.len() {
+        for life in 0..=lives.len() {
             let threads_before = thread_count();
             let rt = tokio::runtime::Builder::new_current_thread().enable_all().build().unwrap();
             let mut env = None;
@@ -721,9 +737,24 @@ pub mod backend {
                         }
                     }
                 }
-                if let Some(reqs) = case.lives.get(life) {
+                if let Some(reqs) = lives.get(life) {
                     for (i, r) in reqs.iter().enumerate() {
                         let ok = send(&group, r).await;
+                        if compare_after_every_request {
+                            for k in 0..MAX_KS {
+                                let name = ks_name(k);
+                                let sv = set_view(&group, &name).await;
+                                let st = storage_view(&*store, &name).await?;
+                                ensure!(
+                                    sv == st,
+                                    "set-differs-from-storage",
+                                    "after request {i} ({}) keyspace {name}: set {:?} but the backend holds {:?}",
+                                    req_json(r),
+                                    sv,
+                                    st
+                                );
+                            }
+                        }
                         if std::env::var_os("VP_DEBUG").is_some() {
                             for k in 0..MAX_KS {
                                 let name = ks_name(k);
@@ -753,7 +784,7 @@ pub mod backend {
                 env.prepare_for_closing().wait();
             }
             let views = res?;
-            if life < case.lives.len() {
+            if life < lives.len() {
                 let carried = views.iter().any(|v| !v.dead.is_empty()) && views.iter().any(|v| !v.live.is_empty());
                 nontrivial |= carried;
                 if views.iter().any(|v| v.live.is_empty() && !v.dead.is_empty()) && !labels.contains(&"keyspace_of_tombstones_only") {
